@@ -4,7 +4,7 @@
 set -u
 cd "$(dirname "$0")/.."
 [ -z "$(git -C /repo status --porcelain --untracked-files=no)" ] || { echo "repo dirty"; exit 2; }
-trap 'git -C /repo checkout -- . 2>/dev/null' EXIT
+[ -n "${ALT:-}" ] || trap 'git -C /repo checkout -- . 2>/dev/null' EXIT
 if [ $# -eq 0 ]; then set -- $(ls seeded); fi
 ok=0; bad=0
 for n in "$@"; do
